@@ -180,7 +180,7 @@ var c14NoArith = map[string]bool{"compare": true, "compare-literal": true, "filt
 // C14: results do not depend on which Go type carries a number.
 func TestC14_Carriers(t *testing.T) {
 	c := collector("C14", "carriers")
-	rapid.Check(t, func(t *rapid.T) {
+	check(t, func(t *rapid.T) {
 		e, name := c14Expr(t)
 		num := func() jv.Val { return jv.VRat(c14Num(t, c14NoArith[name])) }
 		nums := func() []jv.Val {
